@@ -402,7 +402,7 @@ func (o *op08) exec() (r ret08) {
 	}
 	text := func(b []byte, err error) {
 		r.canon = canonDocs(err != nil, []any{string(b)})
-		if err == nil {
+		if err == nil || len(b) > 0 { // what comes back together with an error is the caller's too
 			r.retained = []any{b}
 		}
 	}
